@@ -24,6 +24,11 @@
                              — whatever was materialised on the source before (any request history),
                                the subset answers every request, in any order, with the same tables.
   * `built_grid_end_to_end`  — all of it for every standard-form face table, no other hypothesis.
+  * `efd_history_independent` (`request_efd`, `slice_efd`), `asis_efd_stale`
+                             — `edge_face_distances` is NOT a per-edge invariant of a restriction (it looks at
+                               both faces of the edge): masked on travel (fixes/C09-3) the subset reports what it
+                               derives itself, for every history — under the decidable hypothesis `EFDTransport`,
+                               which the driver evaluates per case; the as-is slicer is history dependent.
   * `asis_*`                 — what /repo did before the repair: proved counterexamples.
   * `data_aligned`, `data_aligned_rank`
                              — sliced data are the source's at the recorded indices, any rank.
@@ -993,6 +998,18 @@ theorem getHoles_coh {B : Base} {g : State} (h : Coh B g) :
     have e : some (Incidence.holeEdges (g1.ef.getD [])) = some B.H := by rw [ef1]; rfl
     exact ⟨_, rfl, { c1 with holes := Or.inr e }, e⟩
 
+/-- requesting `edge_face_distances` keeps coherence (it only adds its own variable) -/
+theorem getEFD_coh {B : Base} {g : State} (h : Coh B g) :
+    ∃ g', getEFD g = some g' ∧ Coh B g' := by
+  unfold getEFD
+  by_cases hs : g.efd.isSome = true
+  · rw [if_pos hs]; exact ⟨g, rfl, h⟩
+  · rw [if_neg hs]
+    obtain ⟨g1, hg1, c1, _⟩ := getEF_coh h
+    simp only [hg1, Option.bind_eq_bind, Option.bind_some, Option.pure_def]
+    exact ⟨_, rfl, { w := c1.w, t := c1.t, en := c1.en, fe := c1.fe, npf := c1.npf, nf := c1.nf,
+                     ef := c1.ef, ff := c1.ff, holes := c1.holes, ready := c1.ready }⟩
+
 /-- no request on a coherent grid raises, and coherence is kept -/
 theorem request_coh {B : Base} {g : State} (h : Coh B g) (v : Var) :
     ∃ g', request g v = some g' ∧ Coh B g' := by
@@ -1004,6 +1021,7 @@ theorem request_coh {B : Base} {g : State} (h : Coh B g) (v : Var) :
   | edgeFace => obtain ⟨g', h1, h2, _⟩ := getEF_coh h; exact ⟨g', h1, h2⟩
   | faceFace => obtain ⟨g', h1, h2, _⟩ := getFF_coh h; exact ⟨g', h1, h2⟩
   | holes => obtain ⟨g', h1, h2, _⟩ := getHoles_coh h; exact ⟨g', h1, h2⟩
+  | edgeFaceDist => exact getEFD_coh h
 
 theorem runHist_coh {B : Base} {g : State} (h : Coh B g) (hist : List Var) :
     ∃ g', runHist g hist = some g' ∧ Coh B g' := by
@@ -1543,6 +1561,171 @@ example : CrossExact (0 : Int) [(0, 0), (0, 5), (0, 5), (0, 5), (5, 5), (-3, 4),
 example : ¬ CrossExact (0 : Int) [(0, 0), (0, 5), (0, 5), (0, 5), (5, 5), (-3, 4), (4, 4), (4, -3)]
     [[0, 1, 2], [3, 4, 2], [5, 6, 7]] [3, 3, 3] [0, 2] := by decide
 
+/-! ## 7f. a variable that is NOT a per-element invariant: `edge_face_distances` -/
+
+def Base.EFD (B : Base) : List (Option (Int × Int)) := efdOf B.EF
+
+/-- a materialised `edge_face_distances` holds this grid's own value -/
+def EfdOK (B : Base) (g : State) : Prop := optIs g.efd B.EFD
+
+theorem getEN_efd (g : State) : (getEN g).efd = g.efd := by
+  unfold getEN; split <;> simp [popEN]
+
+theorem getFE_efd {g g' : State} (h : getFE g = some g') : g'.efd = g.efd := by
+  unfold getFE at h
+  by_cases hs : g.fe.isSome = true
+  · rw [if_pos hs] at h; rw [← Option.some.inj h]
+  · rw [if_neg hs] at h
+    simp only [] at h
+    generalize hg1 : (if (g.en.isNone || g.inv.isNone) = true then popEN g else g) = g1 at h
+    have e1 : g1.efd = g.efd := by rw [← hg1]; split <;> rfl
+    cases hinv : g1.inv with
+    | none => simp [hinv] at h
+    | some v =>
+      simp only [hinv] at h
+      by_cases hl : v.length = g1.t.length * g1.w
+      · rw [if_pos hl] at h; rw [← Option.some.inj h]; exact e1
+      · rw [if_neg hl] at h; cases h
+
+theorem getNPF_efd (g : State) : (getNPF g).efd = g.efd := by
+  unfold getNPF; split <;> rfl
+
+theorem getNF_efd (g : State) : (getNF g).efd = g.efd := by
+  unfold getNF; split <;> rfl
+
+theorem getEF_efd {g g' : State} (h : getEF g = some g') : g'.efd = g.efd := by
+  unfold getEF at h
+  split at h
+  · cases h; rfl
+  · cases h1 : getFE g with
+    | none => rw [h1] at h; cases h
+    | some g1 =>
+      rw [h1] at h
+      simp only [Option.bind_eq_bind, Option.bind_some, Option.pure_def] at h
+      cases h
+      show (getNPF (getEN g1)).efd = g.efd
+      rw [getNPF_efd, getEN_efd, getFE_efd h1]
+
+theorem getFF_efd {g g' : State} (h : getFF g = some g') : g'.efd = g.efd := by
+  unfold getFF at h
+  split at h
+  · cases h; rfl
+  · cases h1 : getEF g with
+    | none => rw [h1] at h; cases h
+    | some g1 =>
+      rw [h1] at h
+      simp only [Option.bind_eq_bind, Option.bind_some, Option.pure_def] at h
+      rw [← Option.some.inj h]
+      have := getEF_efd h1
+      exact this
+
+theorem getHoles_efd {g g' : State} (h : getHoles g = some g') : g'.efd = g.efd := by
+  unfold getHoles at h
+  split at h
+  · cases h; rfl
+  · cases h1 : getEF g with
+    | none => rw [h1] at h; cases h
+    | some g1 =>
+      rw [h1] at h
+      simp only [Option.bind_eq_bind, Option.bind_some, Option.pure_def] at h
+      rw [← Option.some.inj h]
+      have := getEF_efd h1
+      exact this
+
+theorem getEFD_ok {B : Base} {g : State} (h : Coh B g) (he : EfdOK B g) :
+    ∃ g', getEFD g = some g' ∧ Coh B g' ∧ g'.efd = some B.EFD := by
+  unfold getEFD
+  by_cases hs : g.efd.isSome = true
+  · rw [if_pos hs]; exact ⟨g, rfl, h, optIs_some he hs⟩
+  · rw [if_neg hs]
+    obtain ⟨g1, hg1, c1, ef1⟩ := getEF_coh h
+    simp only [hg1, Option.bind_eq_bind, Option.bind_some, Option.pure_def]
+    refine ⟨_, rfl, { w := c1.w, t := c1.t, en := c1.en, fe := c1.fe, npf := c1.npf, nf := c1.nf,
+                      ef := c1.ef, ff := c1.ff, holes := c1.holes, ready := c1.ready }, ?_⟩
+    show some (efdOf (g1.ef.getD [])) = some B.EFD
+    rw [ef1]; rfl
+
+/-- every request keeps `edge_face_distances` coherent -/
+theorem request_efd {B : Base} {g g' : State} (h : Coh B g) (he : EfdOK B g) (v : Var)
+    (hr : request g v = some g') : EfdOK B g' := by
+  unfold EfdOK at he ⊢
+  cases v with
+  | edgeNode => cases hr; rw [getEN_efd]; exact he
+  | faceEdge => rw [getFE_efd hr]; exact he
+  | nPerFace => cases hr; rw [getNPF_efd]; exact he
+  | nodeFace => cases hr; rw [getNF_efd]; exact he
+  | edgeFace => rw [getEF_efd hr]; exact he
+  | faceFace => rw [getFF_efd hr]; exact he
+  | holes => rw [getHoles_efd hr]; exact he
+  | edgeFaceDist =>
+    obtain ⟨g2, h2, _, e2⟩ := getEFD_ok h he
+    have : g' = g2 := by
+      have : request g .edgeFaceDist = getEFD g := rfl
+      rw [this, h2] at hr; exact (Option.some.inj hr).symm
+    rw [this, e2]; exact Or.inr rfl
+
+theorem runHist_efd {B : Base} {g : State} (h : Coh B g) (he : EfdOK B g) (hist : List Var) :
+    ∃ g', runHist g hist = some g' ∧ Coh B g' ∧ EfdOK B g' := by
+  induction hist generalizing g with
+  | nil => exact ⟨g, rfl, h, he⟩
+  | cons v vs ih =>
+    obtain ⟨g1, h1, c1⟩ := request_coh h v
+    obtain ⟨g2, h2, c2, e2⟩ := ih c1 (request_efd h he v h1)
+    exact ⟨g2, by simp [runHist, h1, h2], c2, e2⟩
+
+/-- the decidable transport condition: the source's distances, masked to the edges whose two faces were
+    both selected and renumbered, ARE the distances the subset derives from its own
+    `edge_face_connectivity` .  It is a HYPOTHESIS of
+    `efd_history_independent`: decided by the kernel in the examples below and by the driver
+    (`C09.efdtransport`) on the tables of every generated case.  NOT proved in general (it would follow from
+    C03's `EdgeFaceOK` for both grids plus "the two faces of an edge are distinct"; full statement:
+    `∀ B idx, Pre … → EdgeFaceOK … B.EF → EdgeFaceOK … (B.slice idx).EF → EFDTransport B idx`). -/
+def EFDTransport (B : Base) (idx : List Nat) : Prop :=
+  travelEFD true idx (edgeSel { t := B.t, EN := B.EN, FE := B.FE } idx) B.EFD = (B.slice idx).EFD
+
+instance (B : Base) (idx : List Nat) : Decidable (EFDTransport B idx) := by
+  unfold EFDTransport; infer_instance
+
+theorem slice_efd {B : Base} {g : State} (h : Coh B g) (he : EfdOK B g) {idx : List Nat}
+    (hidx : ∀ f ∈ idx, f < B.t.length) (hT : EFDTransport B idx) :
+    ∃ g', g.slice idx = some g' ∧ Coh (B.slice idx) g' ∧ EfdOK (B.slice idx) g' := by
+  obtain ⟨g', hs, c'⟩ := slice_coh h hidx
+  refine ⟨g', hs, c', ?_⟩
+  obtain ⟨g1, h1, c1, en1, fe1⟩ := getFE_coh h
+  have hEN : getEN g1 = g1 := by unfold getEN; rw [en1]; rfl
+  have hsrc : g1.src = { t := B.t, EN := B.EN, FE := B.FE } := by simp [State.src, c1.t, en1, fe1]
+  have he1 : optIs g1.efd B.EFD := by rw [getFE_efd h1]; exact he
+  unfold State.slice State.sliceWith at hs
+  rw [h1] at hs
+  simp only [Option.bind_eq_bind, Option.bind_some, hEN, Option.pure_def, Bool.false_eq_true, if_false,
+    Bool.not_false] at hs
+  have hg' := Option.some.inj hs
+  unfold EfdOK
+  rw [← hg']
+  show optIs (g1.efd.map (travelEFD true idx (sliceFaces g1.src idx).edgeIdx)) (B.slice idx).EFD
+  rw [hsrc]
+  rcases he1 with hn | hn
+  · left; rw [hn]; rfl
+  · right; rw [hn]
+    show some (travelEFD true idx _ B.EFD) = some (B.slice idx).EFD
+    exact congrArg some hT
+
+/-- **C09, histories, for the neighbour-dependent variable**: whatever was requested on the source before
+    slicing (in particular: `edge_face_distances` itself or not) and on the subset afterwards, the subset
+    reports the distances it derives from its OWN edge-face table -/
+theorem efd_history_independent {B : Base} {g : State} (h : Coh B g) (he : EfdOK B g) {idx : List Nat}
+    (hidx : ∀ f ∈ idx, f < B.t.length) (hT : EFDTransport B idx) (hist order : List Var) :
+    ((runHist g hist).bind (fun g => g.slice idx)).bind (fun u => u.viewEFD order)
+      = some (B.slice idx).EFD := by
+  obtain ⟨g1, h1, c1, e1⟩ := runHist_efd h he hist
+  obtain ⟨u, h2, c2, e2⟩ := slice_efd c1 e1 hidx hT
+  obtain ⟨u1, h3, c3, e3⟩ := runHist_efd c2 e2 order
+  obtain ⟨u2, h4, _, e4⟩ := getEFD_ok c3 e3
+  rw [h1, Option.bind_some, h2, Option.bind_some]
+  have : request u1 .edgeFaceDist = getEFD u1 := rfl
+  simp only [State.viewEFD, h3, Option.bind_eq_bind, Option.bind_some, this, h4, Option.pure_def, e4,
+    Option.getD_some]
+
 /-! ## 8. /repo before the repair: proved counterexamples, and non-vacuity -/
 
 /-- two triangles sharing the edge (1,2) -/
@@ -1605,7 +1788,7 @@ theorem repaired_face_edge_permuted :
     source has no grid dimension, passes through `isel` unchanged and is reported by the subset: the
     source's four boundary edges instead of the subset's three -/
 theorem asis_holes_stale :
-    (((runHist g2 [.holes]).bind (fun g => g.sliceWith false true [1])).bind (fun u => u.view [])).map
+    (((runHist g2 [.holes]).bind (fun g => g.sliceWith false true true [1])).bind (fun u => u.view [])).map
       (fun v => v.holes) = some [0, 1, 3, 4] ∧
     (((runHist g2 [.holes]).bind (fun g => g.slice [1])).bind (fun u => u.view [])).map
       (fun v => v.holes) = some [0, 1, 2] := by
@@ -1621,5 +1804,25 @@ example : crossingEdges (0 : Int) [(-1, 1), (1, 2), (3, -2)] [0, 1, 2] = [0, 2] 
 example : boxSel ({ lon0 := 170, lon1 := -170, lat0 := -10, lat1 := 10, m180 := -180, p180 := 180 } : Box Int)
     [175, 0, -178] [0, 0, 5] = [0, 2] := by decide
 example : knnSel ([5, 1, 3, 1] : List Int) 2 = [3, 1] := by decide
+
+/-- the transport condition holds on the two-triangle example (its only interior edge becomes a boundary
+    edge of the subset) and on a strip of three quads cut in the middle -/
+example : EFDTransport { w := 3, t := t2, EN := edges t2, FE := faceEdges t2 } [1] := by decide
+example : EFDTransport { w := 4, t := [[0, 1, 5, 4], [1, 2, 6, 5], [2, 3, 7, 6]],
+                         EN := edges [[0, 1, 5, 4], [1, 2, 6, 5], [2, 3, 7, 6]],
+                         FE := faceEdges [[0, 1, 5, 4], [1, 2, 6, 5], [2, 3, 7, 6]] } [2, 1] := by decide
+
+/-- **as-is defect 3** (/repo after C09-1 and C09-2): a materialised `edge_face_distances` is sliced as if
+    it were a per-edge invariant.  Two triangles sharing an edge, subset = the second one: if the parent had
+    materialised the variable, the subset reports the distance to a face it does not contain for its edge 0
+    (`(-1, 0)`); with a fresh parent (or the repaired slicer) that edge is a boundary edge with distance 0 -/
+theorem asis_efd_stale :
+    ((runHist g2 [.edgeFaceDist]).bind (fun g => g.sliceWith false false true [1])).bind (fun u => u.viewEFD [])
+      = some [some (-1, 0), none, none] ∧
+    ((runHist g2 []).bind (fun g => g.sliceWith false false true [1])).bind (fun u => u.viewEFD [])
+      = some [none, none, none] ∧
+    ((runHist g2 [.edgeFaceDist]).bind (fun g => g.slice [1])).bind (fun u => u.viewEFD [])
+      = some [none, none, none] := by
+  decide
 
 end UxVerif.C09
